@@ -21,7 +21,7 @@ static const char *const SKN[SK__COUNT] = {"printf(FILE*)", "writef<char>", "wri
     "u16ostream<<", "u32ostream<<", "istream>>", "wistream>>", "format_latin_1", "printf(stdout)", "format(validation)/_stfmt"};
 const char *sink_name(int k) { return (k >= 0 && k < SK__COUNT) ? SKN[k] : "?"; }
 static const char *const PCN[PC__COUNT] = {"overflow_inside_padding_run", "overflow_between_surrogate_units", "eof_exactly_at_token_end", "refill_boundary_inside_multibyte_char",
-    "flush_or_overflow_inside_call", "chunk_not_self_contained_generated", "invalid_token_rejected", "skipped_char16_sink_output_contains_U+FFFF", "extraction_with_field_width", "file_sink_with_stale_error_indicator", "file_sink_after_an_earlier_call_threw", "ostream_sink_with_pending_width_and_fill", "extraction_with_imbued_locale"};
+    "flush_or_overflow_inside_call", "chunk_not_self_contained_generated", "invalid_token_rejected", "skipped_char16_sink_output_contains_U+FFFF", "extraction_with_field_width", "file_sink_with_stale_error_indicator", "file_sink_after_an_earlier_call_threw", "ostream_sink_with_pending_width_and_fill", "extraction_with_imbued_locale", "sink_used_from_a_destructor_during_stack_unwinding"};
 const char *probe_name(int i) { return (i >= 0 && i < PC__COUNT) ? PCN[i] : "?"; }
 
 // ------------------------------------------------------------------ plan text
@@ -33,7 +33,7 @@ std::string plan_to_text(const Plan &p) {
                       g.padch, g.prefix, g.plus, g.cls, g.width, g.prec, g.index); s += b;
     }
     for (const ArgSpec &a : p.args) { std::snprintf(b, sizeof b, "arg kind=%u v=%u n=%u\n", a.kind, a.v, a.n); s += b; }
-    for (const SinkCfg &k : p.sinks) { std::snprintf(b, sizeof b, "sink kind=%u a=%u b=%u fault=%u\n", k.kind, k.a, k.b, k.fault); s += b; }
+    for (const SinkCfg &k : p.sinks) { std::snprintf(b, sizeof b, "sink kind=%u a=%u b=%u fault=%u ctx=%u\n", k.kind, k.a, k.b, k.fault, k.ctx); s += b; }
     return s;
 }
 static bool kv(const char *line, const char *key, long long &out) {
@@ -58,7 +58,7 @@ bool plan_from_text(const std::string &t, Plan &p, std::string &err) {
             if (kv(l, "cls", v)) g.cls = (uint8_t)v; if (kv(l, "width", v)) g.width = (uint32_t)v; if (kv(l, "prec", v)) g.prec = (int32_t)v; if (kv(l, "index", v)) g.index = (uint32_t)v;
             p.segs.push_back(g);
         } else if (!line.compare(0, 4, "arg ")) { ArgSpec a; if (kv(l, "kind", v)) a.kind = (uint8_t)v; if (kv(l, "v", v)) a.v = (uint32_t)v; if (kv(l, "n", v)) a.n = (uint32_t)v; p.args.push_back(a); }
-        else if (!line.compare(0, 5, "sink ")) { SinkCfg k; if (kv(l, "kind", v)) k.kind = (uint8_t)v; if (kv(l, "a", v)) k.a = (uint32_t)v; if (kv(l, "b", v)) k.b = (uint32_t)v; if (kv(l, "fault", v)) k.fault = (uint32_t)v; p.sinks.push_back(k); }
+        else if (!line.compare(0, 5, "sink ")) { SinkCfg k; if (kv(l, "kind", v)) k.kind = (uint8_t)v; if (kv(l, "a", v)) k.a = (uint32_t)v; if (kv(l, "b", v)) k.b = (uint32_t)v; if (kv(l, "fault", v)) k.fault = (uint32_t)v; if (kv(l, "ctx", v)) k.ctx = (uint32_t)v; p.sinks.push_back(k); }
         else { err = "bad line: " + line; return false; }
     }
     return true;
@@ -306,13 +306,24 @@ struct RecWriter : ST::format_writer {
 
 enum Ex { X_NONE = 0, X_UNICODE, X_BADFMT, X_RANGE, X_INVARG, X_SIMREAD, X_IOSFAIL, X_BADALLOC, X_OTHER };
 static const char *const EXN[] = {"none", "ST::unicode_error", "ST::bad_format", "std::out_of_range", "std::invalid_argument", "simulated read failure", "std::ios_base::failure", "std::bad_alloc", "other"};
+// The surroundings of a call: a scope guard that reports through the library does so from its destructor, while the exception that ended the
+// scope is still propagating (std::uncaught_exceptions() > 0).  What a sink receives must not depend on that.  The call's own exception, if any,
+// is carried out of the destructor and rethrown once the unwinding is over.
+static bool g_during_unwinding = false;
+struct UnwindProbe { };
+template <class F> static void during_unwinding(F &f) {
+    std::exception_ptr own;
+    struct Guard { F &f; std::exception_ptr &own; ~Guard() { try { f(); } catch (...) { own = std::current_exception(); } } };
+    try { Guard g{f, own}; throw UnwindProbe(); } catch (const UnwindProbe &) { }
+    if (own) std::rethrow_exception(own);
+}
 template <class F> static Ex guarded(uint64_t budget, Stats *st, F &&f) {
     Ex ex = X_NONE;
     simrt::heap_op_begin(0);
     simrt::clock_arm(budget);
     {
         simrt::SutScope s;
-        try { f(); }
+        try { if (g_during_unwinding) during_unwinding(f); else f(); }
         catch (const ST::unicode_error &) { ex = X_UNICODE; }
         catch (const ST::bad_format &) { ex = X_BADFMT; }
         catch (const std::out_of_range &) { ex = X_RANGE; }
@@ -404,8 +415,9 @@ RunResult run_plan(const Plan &p, Stats *st, std::vector<uint64_t> *nt_pairs) {
         if (V.set) break;
         std::string site = sink_name(k.kind);
         simrt::fatal_context("prop=C17 i=%llu runseed=%llu site=%s shape=%s", (unsigned long long)g_index, (unsigned long long)p.seed, site.c_str(), shape.c_str());
-        if (st) { st->pairs++; st->per_sink[k.kind % SK__COUNT]++; if (k.fault) st->sink_faults_planned++; }
+        if (st) { st->pairs++; st->per_sink[k.kind % SK__COUNT]++; if (k.fault) st->sink_faults_planned++; if (k.ctx == 1) st->probe[PC_CALL_DURING_UNWINDING]++; }
         rr.pairs++;
+        struct CtxScope { CtxScope(bool on) { g_during_unwinding = on; } ~CtxScope() { g_during_unwinding = false; } } ctx_scope(k.ctx == 1);
         bool flushed_inside = false, fault_fired = false;
         unsigned capclass = 0;
         switch (k.kind % SK__COUNT) {
@@ -484,7 +496,8 @@ RunResult run_plan(const Plan &p, Stats *st, std::vector<uint64_t> *nt_pairs) {
                 unsigned ovf_inside = 0;
                 Ex ex = guarded(budget, st, [&] { with_args(args, [&](const auto &...a) { ST::writef(os, fmt.c_str(), a...); }); ovf_inside = rb.ovf; });
                 const size_t held_back = rb.pending();
-                if (unitbuf && accepted && ex == X_NONE && !rb.failed && held_back) { set_viol(V, "sink_bytes_differ", site, "unit-buffered stream: " + std::to_string(held_back) + " unit(s) of the output are still in the put area when writef returns"); return; }
+                // (not while another exception is propagating: the standard's own sentry skips that flush when uncaught_exception() is true)
+                if (unitbuf && k.ctx != 1 && accepted && ex == X_NONE && !rb.failed && held_back) { set_viol(V, "sink_bytes_differ", site, "unit-buffered stream: " + std::to_string(held_back) + " unit(s) of the output are still in the put area when writef returns"); return; }
                 rb.flush_area();
                 flushed_inside = ovf_inside > 0; fault_fired = rb.failed;
                 if (rb.split_surrogate && st) st->probe[PC_OVERFLOW_BETWEEN_SURROGATES]++;
@@ -713,6 +726,8 @@ Plan gen_plan(uint64_t runseed) {
         if (faults && r.below(2)) k.fault = 1 + r.below(r.below(3) ? 4 : 40);
         p.sinks.push_back(k);
     }
+    // the surroundings of the calls (a generator of its own: the plans of earlier versions are unchanged): one sink in eight is used from a destructor during unwinding
+    { Rng u; u.seed(simrt::mix(runseed, 0x756e77, 1)); for (SinkCfg &k : p.sinks) if (u.below(8) == 0) k.ctx = 1; }
     return p;
 }
 
